@@ -11,6 +11,9 @@ func TestMain(m *testing.M) { hx.Main(m, "C08") }
 
 func TestProp(t *testing.T) { hx.Check(t, "loop", Gen, Exec) }
 
+// TestPropErrList: the loop's error list object under concurrent failing callbacks and readers.
+func TestPropErrList(t *testing.T) { hx.Check(t, "errlist", GenErrList, ExecErrList) }
+
 func TestReplay(t *testing.T) {
-	hx.Replay(t, map[string]func(json.RawMessage) (hx.Verdict, error){"loop": hx.Exec(Exec), "": hx.Exec(Exec)})
+	hx.Replay(t, map[string]func(json.RawMessage) (hx.Verdict, error){"loop": hx.Exec(Exec), "": hx.Exec(Exec), "errlist": hx.Exec(ExecErrList)})
 }
